@@ -149,6 +149,7 @@ class EqualityComparer:
 
     def map_index_lambda(self, expr1: IndexLambda, expr2: IndexLambda) -> bool:
         return (expr1.expr == expr2.expr
+                and expr1.dtype == expr2.dtype
                 and (frozenset(expr1.bindings.keys())
                      == frozenset(expr2.bindings.keys()))
                 and all(self.rec(expr1.bindings[name], expr2.bindings[name])
